@@ -59,7 +59,7 @@ def gen(seed, run, tier='quick'):
     n_g = 3
     gconvs = []
     for k in range(n_g):
-        kind = rng.choice(['stub', 'stub', 'table'])
+        kind = rng.choice(['stub', 'stub', 'table', 'method'])
         table = {}
         for a in range(3):
             for b in range(3):
@@ -71,9 +71,13 @@ def gen(seed, run, tier='quick'):
                         table[f"{a}{b}"] = ['amt', f"{rng.randrange(2, 900)}/7",
                                             str(rng.randrange(0, 50))]
                 else:
-                    if x < 0.5:
+                    if x < 0.4:
                         table[f"{a}{b}"] = ['amt',
                                             f"{rng.randrange(2, 9000)}/11"]
+                    elif x < 0.5:
+                        # a float is a number, too
+                        table[f"{a}{b}"] = ['amtf',
+                                            str(rng.randrange(3, 9000) / 8)]
                     elif x < 0.6:
                         table[f"{a}{b}"] = ['raise']
         gconvs.append({'kind': kind, 'table': table})
@@ -229,6 +233,19 @@ class _StubRaise(Exception):
     pass
 
 
+class _Method:
+    """Stands for `stub.convert`: get() hands out a *fresh* bound method."""
+
+    def __init__(self, stub):
+        self.stub = stub
+
+    def get(self):
+        return self.stub.convert
+
+    def __call__(self, qty, to_unit):
+        return self.stub(qty, to_unit)
+
+
 def _frac(s):
     from fractions import Fraction
     return Fraction(s)
@@ -283,7 +300,15 @@ def execute(h):
                 return None
             if e[0] == 'raise':
                 raise _StubRaise(self.idx)
+            if e[0] == 'amtf':
+                return float(qty.amount) * float(e[1])
             return qty.amount * _frac(e[1])
+
+        # used as converter in its own right: every access to `obj.convert`
+        # makes a new bound-method object, equal to but not identical with
+        # the one registered before
+        def convert(self, qty, to_unit):
+            return self(qty, to_unit)
 
     gconvs = []
     for k, spec in enumerate(cfg['gconvs']):
@@ -292,6 +317,8 @@ def execute(h):
                    (_frac(e[1]), _frac(e[2]))
                    for key, e in sorted(spec['table'].items())}
             gconvs.append(TableConverter(tab))
+        elif spec['kind'] == 'method':
+            gconvs.append(_Method(Stub(k, spec['table'])))
         else:
             gconvs.append(Stub(k, spec['table']))
     amount = _frac(cfg['amount'])
@@ -334,10 +361,22 @@ def execute(h):
             return ('raise',)
         if amt is None:
             return ('none',)
+        if isinstance(amt, float):
+            from fractions import Fraction
+            amt = Fraction(amt)
         return ('ok', _num(amt))
 
     ganswers = [{p: safely(gdirect, gc, *p) for p in gpairs}
                 for gc in gconvs]
+
+    def gref(i):
+        g = gconvs[i]
+        return g.get() if isinstance(g, _Method) else g
+
+    def same_conv(observed, conv):
+        if isinstance(conv, _Method):
+            return observed == conv.get()
+        return observed is conv
 
     # ---- model
     mstack = []     # indices into mconvs, bottom .. top
@@ -409,11 +448,12 @@ def execute(h):
         obs_g = list(G.registered_converters())
         exp_g = [gconvs[i] for i in reversed(glist)]
         if len(obs_g) != len(exp_g) or \
-                any(x is not y for x, y in zip(obs_g, exp_g)):
+                any(not same_conv(x, y) for x, y in zip(obs_g, exp_g)):
             violate('generic_list', 'list', step,
                     expected=list(reversed(glist)),
                     observed=[next((i for i, g in enumerate(gconvs)
-                                    if g is x), -1) for x in obs_g])
+                                    if same_conv(x, g)), -1)
+                              for x in obs_g])
         vec = []
         # --- money conversions, every ordered pair
         for p in pairs:
@@ -587,7 +627,7 @@ def execute(h):
                             model_stack=list(mstack))
             after(i, o[0])
         elif op == 'regbad':
-            bad = [None, 17, gconvs[0]][t[1] % 3]
+            bad = [None, 17, gref(0)][t[1] % 3]
             o = observe(lambda: Money.register_converter(bad))
             bump(faults, 'rejected_registration')
             if o[0] == 'ok':
@@ -595,7 +635,7 @@ def execute(h):
             after(i, o[0])
         elif op == 'greg':
             g = t[1] % len(gconvs)
-            G.register_converter(gconvs[g])
+            G.register_converter(gref(g))
             if g in glist:
                 bump(probes, 'generic_registered_again')
             else:
@@ -603,7 +643,7 @@ def execute(h):
             after(i, 'ok')
         elif op == 'grem':
             g = t[1] % len(gconvs)
-            o = observe(lambda: G.remove_converter(gconvs[g]))
+            o = observe(lambda: G.remove_converter(gref(g)))
             if g in glist:
                 glist.remove(g)
                 if o[0] != 'ok':
